@@ -1,7 +1,7 @@
 (* C13 -- property theorems only.  Proofs live in C13/Proofs*.v. *)
 From Coq Require Import NArith List Sorted.
 From DV Require Import Base.Outcome Base.Bytes Base.Lex Base.Names C11.Sha C13.Gen C13.Model
-  C13.ProofsBitmap C13.ProofsNames C13.ProofsNsec2 C13.ProofsDeny C13.ProofsGroups C13.ProofsN3c C13.ProofsN3d C13.ProofsN3e C13.ProofsN3f C13.ProofsDedup C13.ProofsTtl C13.ModelLabel C13.ProofsLabel C13.ProofsIter.
+  C13.ProofsBitmap C13.ProofsNames C13.ProofsNsec2 C13.ProofsDeny C13.ProofsGroups C13.ProofsN3c C13.ProofsN3d C13.ProofsN3e C13.ProofsN3f C13.ProofsDedup C13.ProofsTtl C13.ModelLabel C13.ProofsLabel C13.ProofsIter C13.ProofsTtl3.
 Import ListNotations.
 Local Open Scope N_scope.
 
@@ -160,3 +160,16 @@ Theorem C13_bitmap_iter_exact : forall ts, Forall (fun x => x < 65536) ts ->
     forall t, t < 65536 -> (In t l <-> In t ts).
 Proof. exact bitmap_iter_exact. Qed.
 Print Assumptions C13_bitmap_iter_exact.
+
+Theorem C13_nsec3_ttl_class_erasure : forall H apex c m z o, generate_nsec3s_t H apex c m z = Ok o ->
+  generate_nsec3s H apex c (map trec_strip z) = Ok (map fst (o_recs o)).
+Proof. exact nsec3_t_erasure. Qed.
+Print Assumptions C13_nsec3_ttl_class_erasure.
+
+Theorem C13_nsec3_ttl_class_from_soa : forall H apex c m z o, generate_nsec3s_t H apex c m z = Ok o ->
+  o_class o = 1 /\
+  (forall x, In x (o_recs o) -> exists s, In s z /\ t_type s = 6 /\ snd x = N.min (t_min s) (t_ttl s)) /\
+  (exists s, In s z /\ t_type s = 6 /\
+     o_param_ttl o = match m with PFixed t => t | PSoa => t_ttl s | PSoaMin => t_min s end).
+Proof. exact nsec3_t_ttl_class. Qed.
+Print Assumptions C13_nsec3_ttl_class_from_soa.
